@@ -919,7 +919,9 @@ def run(ctx):
                 'V-dependent factor, product / sum of two terms with equal / different singular points), plus equations '
                 'without the pattern and excluded variables; 13 voltages per term.  Also: the term in a denominator, an outer factor / '
                 'divisor on a sum of two same-point terms, a voltage-switched outer factor, exp(U) in a helper variable, twin '
-                'equations, and in 35%% of the documents the definitions listed AFTER the equations that use them.' % (npw, nmodels, neq))
+                'equations, negative powers (-2, -3) of an exp-containing sub-expression next to the term, 12%% of the forms written '
+                'directly as the right-hand side of an ODE, and in 35%% of the documents the definitions listed AFTER the equations '
+                'that use them.' % (npw, nmodels, neq))
     ctx.trusted += ['mpmath 1.3 at 50 digits (both sides of the stage-D comparison)',
                     'Interval 4 / Flocq 4 / Coquelicot (tactic `interval` for the end-point bounds)',
                     'the pattern search (_get_singularity: SymPy match / solveset) is NOT modelled: tied through stage D only']
